@@ -503,3 +503,11 @@ PROPS['C12'] = dict(
     trace=dict(module='SubseqTrace', cfg='SubseqTrace.cfg', stack='256m'),
     assumptions=['TLC; Subseq.tla/EditScript.tla: declarative optimum (quadratic DP) and transcription of the patience algorithm',
                  'exhaustive over the TLC-enumerated input space; seeded random beyond (long near-monotone inputs with duplicates)'])
+
+# --------------------------------------------------------------------------
+# C13 mdiff chunks
+PROPS['C13'] = dict(
+    mc=[dict(module='DiffChunksMC', cfg=('DiffChunksMC_q.cfg', 'DiffChunksMC_t.cfg'), emit=True, workers=8)],
+    trace=dict(module='DiffChunksTrace', cfg='DiffChunksTrace.cfg', stack='256m'),
+    assumptions=['TLC; DiffChunks.tla stage conditions as transcription of the property; ModelNew transcribes mdiff.New',
+                 'exhaustive over the TLC-enumerated space of pairs x all context sizes 0..MaxN; seeded random beyond (incl. n larger than every gap)'])
